@@ -13,7 +13,7 @@
 
   State invariants (one state of the history) transfer by `cml_transfer`; statements about a state and a later state
   (`…_frozen`) by `cml_transfer2`; statements about the steps of the history (C05: no end-block halts, the settlement
-  bound; C16 `betInv`: positive block heights) by the STEP-WISE simulation `cml_trace` (Lemmas/CombinedPlainSim.lean).
+  bound; C16 `betInv`: positive block heights) by the STEP-WISE simulation `cml_run_trace` (Lemmas/CombinedPlainSim.lean).
 -/
 import SgeProofs.Properties.C11Combined
 import SgeProofs.Properties.C08Index
@@ -475,5 +475,71 @@ theorem c05_settles_within_of_nonneg_parts_combined (p : Params) (bal : List (Na
   exact c05_settles_within_combined p bal h t we de h0 pre ops
     (fun o ho => Op.wfU_wf (hwf o (List.mem_append_left _ ho))) (fun o ho => Op.wfU_wf (hwf o (List.mem_append_right _ ho)))
     k N M hN hM hNb hMb hba (by rw [cml_okEnds_of_noHalt ops s n.2]; exact hcnt)
+
+-- ---------------------------------------------------------------------------------------------
+-- non-vacuity: the history of C01Combined.lean — a subaccount (address `subAddr 1`) deposits 50000000 into the house of
+-- market 1 through MsgHouseDeposit of x/subaccount, its owner (account 2) wagers 2000000 through MsgWager of
+-- x/subaccount (1500000 of it paid by the subaccount), the bettor's outcome is declared — followed by one end-block
+
+instance cml_decPosHeight (op : Op) : Decidable (cml_posHeight op) := by
+  cases op <;> unfold cml_posHeight <;> infer_instance
+
+/-- `sampleOps` of C01Combined.lean followed by one end-block -/
+def cml_exOps : List Op := sampleOps ++ [Op.core Core.Op.endBlock]
+
+/-- the hypotheses of all theorems of this file hold of that history: key-holding signers (`Op.wfU`, hence `Op.wf`),
+    empty custody accounts, no negative balance in the subaccount range, valid parameters, positive block heights, no
+    negative backing part in the final core state, batch sizes kept, and ⌊1/1000⌋ + ⌊1/100⌋ + 1 = 1 end-block in the
+    continuation; the bet of the core component was placed through the subaccount (bettor = owner 2) and is backed by
+    the participation of the subaccount address. -/
+example :
+    let pre := sampleOps
+    let ops : List Op := [.core .endBlock]
+    let s := run sampleInit pre
+    (∀ op ∈ pre ++ ops, op.wfU ∧ op.wf ∧ cml_posHeight op) ∧
+    (getBal sampleInit.core.bal ACC_POOL = 0 ∧ getBal sampleInit.core.bal ACC_BETFEE = 0 ∧ getBal sampleInit.core.bal ACC_HOUSEFEE = 0) ∧
+    (∀ x, SUB_BASE ≤ x → 0 ≤ getBal sampleInit.core.bal x) ∧ sampleInit.core.params.valid = true ∧ sampleInit.core.height ≠ 0 ∧
+    NonNegParts (run sampleInit (pre ++ ops)).core ∧
+    (s.core.bets.map (fun b => (b.creator, b.id, b.fulfs.map (fun f => (f.idx, f.addr, f.bet, f.profit)))) ==
+      [(2, 1, [(1, subAddr 1, 1999900, 1999900)])]) = true ∧
+    (s.core.books.map (fun b => b.parts.map (fun q => (q.idx, q.addr, q.liq))) == [[(1, subAddr 1, 45000000)]]) = true ∧
+    s.core.mqueue = [1] ∧ s.core.obqueue = [] ∧
+    1000 ≤ s.core.params.betBatch ∧ 100 ≤ s.core.params.obBatch ∧ cml_batchAtLeast 1000 100 ops = true ∧
+    settleBound 1000 100 s.core 1 = 1 ∧ cml_endBlocks ops = 1 ∧ cml_okEnds s ops = 1 := by
+  refine ⟨?_, by decide, ?_, by decide, by decide, by unfold NonNegParts; decide +kernel, ?_⟩
+  · have hb : cml_exOps.all (fun op => cmb2_wfUb op && decide (cml_posHeight op)) = true := by
+      decide +kernel
+    intro op hop
+    have := List.all_eq_true.mp hb op hop
+    simp only [Bool.and_eq_true, decide_eq_true_eq] at this
+    exact ⟨cmb2_wfUb_sound this.1, Op.wfU_wf (cmb2_wfUb_sound this.1), this.2⟩
+  · intro x hx
+    have e : getBal sampleInit.core.bal x = 0 := by
+      show getBal [(7, 100000000), (2, 100000000), (9, 0)] x = 0
+      unfold SUB_BASE at hx
+      simp only [getBal]
+      rw [if_neg (by omega), if_neg (by omega), if_neg (by omega)]
+    omega
+  · refine ⟨?_, ?_, ?_, ?_, ?_, ?_, ?_, ?_, ?_, ?_⟩ <;> decide +kernel
+
+/-- the theorems applied to that history: the end-block does not halt, and after it market 1 — with the subaccount's
+    participation and the bet placed through the subaccount — is completely settled -/
+example : cml_noHalt sampleInit cml_exOps = true ∧ FullySettled (run sampleInit cml_exOps).core 1 := by
+  have hwf : ∀ op ∈ cml_exOps, op.wfU := cmb2_wfUb_all (ops := cml_exOps) (by decide +kernel)
+  have hb : ∀ x, SUB_BASE ≤ x → 0 ≤ getBal [(7, 100000000), (2, 100000000), ((9 : Nat), (0 : Int))] x := by
+    intro x hx
+    unfold SUB_BASE at hx
+    simp only [getBal]
+    rw [if_neg (by omega), if_neg (by omega), if_neg (by omega)]
+    exact Int.le_refl _
+  obtain ⟨h1, h2⟩ := c05_settles_within_of_nonneg_parts_combined {} [(7, 100000000), (2, 100000000), (9, 0)] 1 100 true true
+    (by decide) (by decide) hb sampleOps [.core .endBlock] hwf 1 1000 100 (by decide) (by decide)
+    (by unfold NonNegParts; decide +kernel) (by decide +kernel) (by decide +kernel) (by decide) (by decide +kernel)
+  refine ⟨h1, h2 1 ?_⟩
+  have e : (run (init {} [(7, 100000000), (2, 100000000), (9, 0)] 1 100 true true) sampleOps).core.obqueue ++
+      (run (init {} [(7, 100000000), (2, 100000000), (9, 0)] 1 100 true true) sampleOps).core.mqueue.take 1 = [1] := by
+    decide +kernel
+  rw [e]
+  exact List.mem_singleton.mpr rfl
 
 end Sge.Combined
